@@ -99,7 +99,7 @@ def _replay_law(name, label, law):
             "pyfloat": "bad = not same(float(t.membership(float(x))), float(t.membership(np.array(x))), 0.0)",
             "arrays": "xa = np.array([x, x2, x]); xb = np.array([[x, x2], [x2, x]]); r = t.membership(xa); r2 = t.membership(xb);"
                       " bad = not (same(r, [y, y2, y], 0.0) and same(r2, [[y, y2], [y2, y]], 0.0) and same(xa, [x, x2, x]) and same(xb, [[x, x2], [x2, x]]))\n"
-                      "for A in (np.array([x]), np.array([[x]]), np.array([[x], [x2]]), np.array([[x, x2]])):\n"
+                      "for A in (np.array([x]), np.array([[x]]), np.array([[x], [x2]]), np.array([[x, x2]]), np.array([[x, x2, x2], [x2, x2, x]]).T, np.asfortranarray([[x, x2], [x2, x2]]), np.array([x, x2, x2])[::-1]):\n"
                       "    rs = t.membership(A); bad = bad or np.shape(rs) != A.shape or not same(rs, np.vectorize(lambda q: float(t.membership(q)))(A), 0.0)",
         }[law])
         lines.append(f"verdict(bad, '{name}.{law}: x=%r -> %r ; x2=%r -> %r (h=%r)' % (x, y, x2, y2, h))")
@@ -282,13 +282,21 @@ def ob_arrays(name, tier):
             # arrays with one element or axes of length one keep their shape
             shapes = ([xs[0]], [[xs[0]]], [[xs[0]], [xs[1]]], [[xs[0], xs[1]]])
             sing = [(t.membership(sym_array(a)), np.shape(np.array(a, dtype=object))) for a in shapes]
-            return r1, e1, r2, e2, A1, A2, sing
+            # a transposed view (Fortran-ordered memory, the same logical elements) and a strided slice
+            layout = [(t.membership(sym_array(m).T), [[e2[i][j] for i in range(2)] for j in range(cols)]),
+                      (t.membership(sym_array(xs)[::-1]), e1[::-1])]
+            return r1, e1, r2, e2, A1, A2, sing, layout
 
         for p in ob.paths(pre, body):
             if p.exc is not None:
                 ob.unexpected(pre, p, f"{name}/R/arrays", _inputs(P, h, xs[0], xs[1]), _replay_law(name, f"{name}/R/arrays", "arrays"))
                 continue
-            r1, e1, r2, e2, A1, A2, sing = p.result
+            r1, e1, r2, e2, A1, A2, sing, layout = p.result
+            if kind_of(layout[0][0]) != ("array", (cols, 2)):
+                ob.prove(pre, p, False, f"{name}/R/arrays/transposed-shape {kind_of(layout[0][0])}", _inputs(P, h, xs[0], xs[1]), _replay_law(name, f"{name}/R/arrays", "arrays"))
+                continue
+            ob.prove(pre, p, z3.And([all_same(a, e) for a, e in layout]), f"{name}/R/arrays/memory-layout", _inputs(P, h, xs[0], xs[1]),
+                     _replay_law(name, f"{name}/R/arrays", "arrays"))
             wrong = [(kind_of(a), shp) for a, shp in sing if kind_of(a) != ("array", shp)]
             if wrong:
                 ob.prove(pre, p, False, f"{name}/R/arrays/singleton-shape {wrong[0]}", _inputs(P, h, xs[0], xs[1]), _replay_law(name, f"{name}/R/arrays", "arrays"))
